@@ -260,6 +260,126 @@ def job_float_far(family):
     return res
 
 
+AFTER_FIT_N = 11
+
+
+def _near_training_arrays(T, Z):
+    """arrays of the TRAINING SHAPE that agree with the training array T at many positions: one row replaced (every position in turn),
+    every other row replaced, two rows exchanged, reversed.  Z supplies the replacement rows."""
+    N = len(T)
+    out = []
+    for i in range(N):
+        V = np.array(T, dtype=T.dtype, copy=True)
+        V[i] = Z[i % len(Z)]
+        out.append((f"row {i} replaced", V))
+    V = np.array(T, dtype=T.dtype, copy=True)
+    for i in range(1, N, 2):
+        V[i] = Z[i % len(Z)]
+    out.append(("odd rows replaced", V))
+    V = np.array(T, dtype=T.dtype, copy=True)
+    V[[2, N - 2]] = V[[N - 2, 2]]
+    out.append((f"rows 2 and {N - 2} exchanged", V))
+    out.append(("reversed", np.array(T[::-1], dtype=T.dtype, copy=True)))
+    return out
+
+
+def job_after_fit(family, shape):
+    """The model is produced by the REAL ``fit`` (objective and optimiser stubbed, one epoch) on AFTER_FIT_N rows drawn from two
+    distinct symbolic rows -- so whatever fit leaves on the estimator is there -- and is then asked for arrays of the training shape
+    that share most rows with the training data: every row must get the probabilities it gets when predicted alone, and the
+    training array itself, a copy of it and its rows one by one must agree."""
+    loader.install()
+    res = _new()
+    N = AFTER_FIT_N
+    from .c01 import long_pattern
+    pattern = long_pattern(N, 2)
+
+    def setup():
+        core.CTX.strict = True
+        env = cm.FitEnv(family, (N,) + tuple(shape[1:]), gemini="mi", batch_size=None, max_iter=1, stop_after_training=False, gemini_stub=True, final_infer="concrete")
+        if cm.BASE[family] == "kernelrim":
+            # a point-wise uninterpreted kernel (FitEnv's stand-in is one matrix per call, which says nothing about single rows)
+            loader.load("linear._linear_geminis").pairwise_kernels = kernel_uf
+        base = env.X[:2]
+        env.X = np.array(base[np.asarray(pattern)], dtype=object, copy=True)
+        Z = harness.free_matrix(1, env.X.shape[1], "z")
+        return env, Z
+
+    def body(arg):
+        env, Z = arg
+        env.run_fit()
+        env.final_infer, env.assume_unclipped = "real", False
+        mdl, T = env.mdl, env.X
+        outs = []
+        for name, V in [("training array", T), ("copy of the training array", np.array(T, dtype=object, copy=True))] + _near_training_arrays(T, Z):
+            full = np.asarray(mdl.predict_proba(V), dtype=object)
+            alone = [np.asarray(mdl.predict_proba(V[i:i + 1]), dtype=object)[0] for i in range(len(V))]
+            outs.append((name, full, alone))
+        return outs
+
+    ex = Explorer(max_paths=400)
+    tagbase = f"after-fit/{family}/{cm.shape_str(shape)}/N{N}"
+    seen = set()
+    rep = {"kind": "after-fit", "family": family}
+    for out, pc, trace in ex.run(body, setup):
+        res["paths"] += 1
+        tag = f"{tagbase}/path{res['paths']}"
+        if isinstance(out, PathError):
+            bad = replay(rep)
+            res["obligations"].append({"name": tag + "/path-error", "verdict": "sat" if bad else "inconclusive", "how": repr(out)[:300]})
+            sig = f"{PROP}:{family}:after-fit"
+            if bad and sig not in seen:
+                seen.add(sig)
+                res["violations"].append({"signature": sig, "what": f"{family}: after a real fit, rows of an array of the training shape are not predicted as they are alone (symbolic run stopped: {repr(out)[:120]})", "replay": rep})
+            break
+        for name, full, alone in out:
+            ok = full.shape[0] == len(alone) and all(_keys(full[i]) == _keys(alone[i]) for i in range(len(alone)))
+            res["obligations"].append({"name": f"{tag}/{name}: every row as when predicted alone", "verdict": "unsat" if ok else "sat", "how": "term-identity"})
+            sig = f"{PROP}:{family}:after-fit"
+            if not ok and sig not in seen:
+                if replay(rep):
+                    seen.add(sig)
+                    res["violations"].append({"signature": sig, "what": f"{family}: after a real fit, {name}: rows are not predicted as they are alone", "replay": rep})
+                else:
+                    res["obligations"][-1]["verdict"] = "inconclusive"
+        if len(res["samples"]) < 1:
+            res["samples"].append({"obligation": tag, "arrays": len(out), "pc_size": len(pc)})
+    if ex.truncated:
+        res["obligations"].append({"name": tagbase + "/exploration", "verdict": "unknown", "how": "path budget exhausted"})
+    return res
+
+
+def _after_fit_run(rep, verbose):
+    """concrete counterpart: the real estimator, really fitted (a few epochs) on float data"""
+    import warnings
+    family = rep["family"]
+    N = AFTER_FIT_N
+    rng = np.random.RandomState(3)
+    mods = {"LinearModel": ("linear._linear_geminis", "LinearMMD", {}), "MLPModel": ("mlp._mlp_geminis", "MLPMMD", {"n_hidden_dim": 3}),
+            "SparseLinearModel": ("sparse._linear_sparse", "SparseLinearMMD", {}), "SparseMLPModel": ("sparse._mlp_sparse", "SparseMLPMMD", {"n_hidden_dim": 3}),
+            "Douglas": ("tree.douglas", "Douglas", {}), "KernelRIM": ("linear._linear_geminis", "KernelRIM", {})}
+    modname, clsname, kw = mods[family]
+    cls = getattr(loader.real(modname), clsname)
+    for n in (N, 24):
+        X = rng.normal(size=(n, 2))
+        Z = rng.normal(size=(3, 2))
+        with warnings.catch_warnings():
+            warnings.simplefilter("ignore")
+            mdl = cls(n_clusters=3, max_iter=5, random_state=0, **kw).fit(X)
+            for name, V in [("training array", X), ("copy", X.copy())] + _near_training_arrays(X, Z):
+                full = mdl.predict_proba(V)
+                alone = np.vstack([mdl.predict_proba(V[i:i + 1]) for i in range(len(V))])
+                if full.shape != alone.shape or not np.allclose(full, alone, rtol=1e-9, atol=1e-12):
+                    if verbose:
+                        print(family, f"n={n}", name, "max |together - alone| =", float(np.abs(full - alone).max()))
+                    return True
+            if not np.array_equal(np.asarray(mdl.predict(X)), np.asarray(mdl.labels_)):
+                if verbose:
+                    print(family, f"n={n}", "predict(training data) differs from labels_")
+                return True
+    return False
+
+
 def _float_far_run(rep, verbose):
     family = rep["family"]
     shape = {"LinearModel": (6, 2, 3), "MLPModel": (6, 2, 3, 3), "Douglas": (6, 2, 2, 3), "KernelRIM": (6, 3), "SparseLinearModel": (6, 2, 3)}[family]
@@ -294,6 +414,8 @@ def replay(rep, verbose=False):
     rng = np.random.default_rng(4)
     if rep["kind"] == "float-far":
         return _float_far_run(rep, verbose)
+    if rep["kind"] == "after-fit":
+        return _after_fit_run(rep, verbose)
     if rep["kind"] == "kauri":
         kmod = loader.real("tree.kauri")
         U = loader.real("tree._utils")
@@ -385,6 +507,9 @@ def jobs(tier):
         out.append({"name": f"{fam}/{cm.shape_str(sh)}/m3/batch2", "target": "checks.c18:job_model", "kwargs": dict(family=fam, shape=sh, m=3, hyper={"batch_size": 2}), "timeout": 280 if q else 2400})
     for fam in ("LinearModel", "MLPModel", "Douglas", "KernelRIM", "SparseLinearModel"):
         out.append({"name": f"float-far-row/{fam}", "target": "checks.c18:job_float_far", "kwargs": dict(family=fam), "timeout": 200})
+    # fitted by the real fit, then asked for arrays that look like the training data
+    for fam, sh in [("LinearModel", (2, 1, 2)), ("MLPModel", (2, 1, 1, 2)), ("SparseMLPModel", (2, 1, 1, 2)), ("SparseLinearModel", (2, 1, 2)), ("Douglas", (2, 1, 1, 2)), ("KernelRIM", (2, 2))]:
+        out.append({"name": f"after-fit/{fam}", "target": "checks.c18:job_after_fit", "kwargs": dict(family=fam, shape=sh), "timeout": 280 if q else 1200})
     for L in ([2, 3, 4] if q else [2, 3, 4, 5]):
         out.append({"name": f"kauri/L{L}", "target": "checks.c18:job_kauri", "kwargs": dict(L=L, m=2), "timeout": 280 if q else 2400})
         if L <= 3:
